@@ -37,5 +37,59 @@ def run_history(ops):
     return out
 
 
+def run_shutdown(case):
+    """exit actions: the real Process._shutdown drains main._atexitq while the running actions
+    add / move / remove pending actions."""
+    from sc3.base import main as _libsc3
+    from sc3.base._taskq import TaskQueue
+    main = _libsc3.main
+    saved = main._atexitq
+    q = TaskQueue()
+    main._atexitq = q
+    ran = []
+    actions = {}
+
+    def make(t):
+        def action():
+            ran.append(t)
+            if len(ran) > 200:
+                raise RuntimeError('runaway shutdown')
+            for op in case['beh'].get(str(t), []):
+                if op[0] == 'a':
+                    q.add(op[1] / 8.0, get(op[2]))
+                else:
+                    q.remove(get(op[1]))
+        return action
+
+    def get(t):
+        if t not in actions:
+            actions[t] = make(t)
+        return actions[t]
+    try:
+        for p, t in case['adds']:
+            q.add(p / 8.0, get(t))
+        try:
+            main._shutdown()
+            out = 'ran ' + ' '.join(str(t) for t in ran)
+        except Exception as e:
+            out = f'EXC:{type(e).__name__} after ' + ' '.join(str(t) for t in ran)
+    finally:
+        main._atexitq = saved
+        import atexit
+        atexit.register(main._shutdown)
+    return [out]
+
+
 def run(payload):
-    return [run_history(ops) for ops in payload['cases']]
+    res = []
+    inited = False
+    for c in payload['cases']:
+        if isinstance(c, dict):
+            if not inited:
+                import sc3
+                sc3.init('nrt', 'ERROR')
+                inited = True
+            res.append(run_shutdown(c))
+        else:
+            res.append(run_history(c))
+    return res
